@@ -212,6 +212,25 @@ def one_call(p, c, logdir, call_no, rng, tfail, ifail):
             out["latency"] = round(time.time() - float(open(os.path.join(logdir, "fail_time")).read()), 2)
         except (OSError, ValueError):
             pass
+        if c.get("slow") and c["backend"] == "loky":
+            # the worker processes that ran tasks of this call: the abort kills them BEFORE the call raises
+            pids = set()
+            try:
+                for line in open(os.path.join(logdir, "exec.log")):
+                    cn, i, pid = line.split()
+                    if int(cn) == call_no and int(pid) != os.getpid():
+                        pids.add(int(pid))
+            except OSError:
+                pass
+
+            def alive(pid):
+                try:
+                    os.kill(pid, 0)
+                    return open("/proc/%d/stat" % pid).read().split()[2] != "Z"
+                except (OSError, IndexError):
+                    return False
+            out["workers_alive"] = sum(1 for p0 in pids if alive(p0))
+            out["workers_seen"] = len(pids)
     return out
 
 
